@@ -113,6 +113,7 @@ func (o *childOut) flush() {
 			o.rec.Distinct(s, k)
 		}
 	}
+	o.rec.Note("evals", o.counters["rt_patterns"]+o.counters["tot_inputs"]+o.counters["corpus_instructions"]+o.counters["mix_sequence_checks"])
 	for i := 0; i < len(o.nontriv); i += 500 {
 		j := i + 500
 		if j > len(o.nontriv) {
@@ -204,6 +205,11 @@ func main() {
 				var n classNote
 				if json.Unmarshal(b, &n) == nil && n.Key != "" {
 					addClass(n)
+				}
+			}
+			for _, v := range notes["evals"] {
+				if f, ok := v.(float64); ok {
+					c.Evals(int64(f))
 				}
 			}
 			for _, v := range notes["ntb"] {
